@@ -217,7 +217,8 @@ func (f *FrameHeader) readFrom(br *bufio.Reader) (int64, error) {
 
 		n, err = io.ReadFull(br, f.payload[:n])
 		if err != nil {
-			ReleaseFrame(f.fr)
+			// f.fr stays attached: whoever releases the FrameHeader
+			// releases the body with it, exactly once.
 			return 0, err
 		}
 
